@@ -110,3 +110,10 @@ claim("C14", "model_checking",
       "database (sqlite_master + full dump) and the directory bytes are compared before and after and TLC evaluates the formulas on each invocation.",
       "Trusted: python's sqlite3 reader; SQLite dev databases only; HCL-only sources owe non-interference only on SQLite.",
       "3 C14")
+claim("C19", "model_checking",
+      "TLA+ reference of the exclude-pattern semantics (Exclude.tla) and of the diff policy (SchemaModel.tla DiffSpecSkip) evaluated by TLC; expectations compared with schema.ExcludeRealm and with the three differs under DiffSkipChanges; end-to-end CLI on SQLite",
+      "TLC evaluates the glob reference (cross-checked against a second formulation) on 630 patterns and 66 two-pattern sets over a realm of 2 schemas x 3 tables with columns, indexes, a check and a foreign key, and verifies SkipSound on the model; "
+      "schema.ExcludeRealm must remove exactly the excluded resources; the three dialect differs, given each single skippable kind (and all drop kinds together), must produce exactly DiffSpecSkip for every pair of the C02 corpus; `schema apply --exclude` "
+      "and `schema apply --env` with diff.skip on SQLite must never mention an excluded table or plan a skipped kind.",
+      "Trusted: pattern rendering; skippable kinds = those of cmdapi.SkipChanges produced by the model.",
+      "3 C19")
